@@ -4,6 +4,44 @@ package codegen
 
 // Contracts for the deductive checker in /verif (comment-only file; adds no code).
 //
+// ---- action binding (C06) --------------------------------------------------------------
+//
+// termTy: the Go type of the value a term puts on the parse stack.
+//@ pure func termTy(c *context, t lr1.Term) types.Type = ite(typeis(t, *lr1.Rule), c.RuleGoTypes[unbox(t, *lr1.Rule)], ite(unbox(t, *lr1.Terminal) == c.ParserGrammar.ErrorTerminal, c.ErrorType, c.TokenType))
+//@ pure func isTerm(t lr1.Term) bool = (typeis(t, *lr1.Rule) && !isnil(unbox(t, *lr1.Rule))) || (typeis(t, *lr1.Terminal) && !isnil(unbox(t, *lr1.Terminal)))
+// matches: same number of parameters as terms, and every parameter accepts, by Go
+// assignability, the value type of its term.
+//@ opaque func matches(c *context, prod *lr1.Prod, m *actionMethod) bool = len(m.Params) == len(prod.Terms) && forall i int :: {m.Params[i]} 0 <= i && i < len(m.Params) ==> types.AssignableTo(termTy(c, prod.Terms[i]), m.Params[i])
+//
+//@ func context.getTermGoType
+//@   requires !isnil(c) && !isnil(c.ParserGrammar) && isTerm(term)
+//@   ensures result == termTy(c, term)
+//
+//@ func context.matchMethod$1
+//@   requires !isnil(c) && !isnil(c.ParserGrammar) && !isnil(prod) && !isnil(method)
+//@   requires forall i int :: {prod.Terms[i]} 0 <= i && i < len(prod.Terms) ==> isTerm(prod.Terms[i])
+//@   ensures result <==> matches(c, prod, method)
+//@   let n = len(method.Params)
+//@   loop 0 invariant -1 <= rangeindex && (rangeindex < n || (n == 0 && rangeindex == -1)) && method == old(method) && len(method.Params) == len(prod.Terms)
+//@   loop 0 invariant unchangedOld(fields(context)) && unchangedOld(fields(actionMethod)) && unchangedOld(fields(lr1.Prod)) && unchangedOld(fields(lr1.Grammar)) && unchangedOld(elems(types.Type)) && unchangedOld(elems(lr1.Term))
+//@   loop 0 invariant forall i int :: {method.Params[i]} 0 <= i && i <= rangeindex ==> types.AssignableTo(termTy(c, prod.Terms[i]), method.Params[i])
+//@   loop 0 decreases n - rangeindex
+//
+//@ func context.matchMethod
+//@   requires !isnil(c) && !isnil(c.ParserGrammar) && !isnil(prod)
+//@   requires forall i int :: {prod.Terms[i]} 0 <= i && i < len(prod.Terms) ==> isTerm(prod.Terms[i])
+//@   requires forall k int :: {methods[k]} 0 <= k && k < len(methods) ==> !isnil(methods[k])
+//   exactly the methods that match, in their original order
+//@   ensures forall j int :: {result[j]} 0 <= j && j < len(result) ==> exists k int :: 0 <= k && k < len(methods) && result[j] == methods[k] && matches(c, prod, methods[k])
+//@   ensures forall k int :: {methods[k]} 0 <= k && k < len(methods) && matches(c, prod, methods[k]) ==> exists j int :: 0 <= j && j < len(result) && result[j] == methods[k]
+//@   let n = len(methods)
+//@   loop 0 invariant -1 <= rangeindex && (rangeindex < n || (n == 0 && rangeindex == -1)) && methods == old(methods) && prod == old(prod) && c == old(c)
+//@   loop 0 invariant unchangedOld(fields(context)) && unchangedOld(fields(actionMethod)) && unchangedOld(fields(lr1.Prod)) && unchangedOld(fields(lr1.Grammar)) && unchangedOld(elems(types.Type)) && unchangedOld(elems(lr1.Term)) && unchangedOld(elems(*actionMethod))
+//@   loop 0 invariant cap(matches) == 0 || fresh(matches)
+//@   loop 0 invariant forall j int :: {matches[j]} 0 <= j && j < len(matches) ==> exists k int :: 0 <= k && k <= rangeindex && matches[j] == methods[k] && matches(c, prod, methods[k])
+//@   loop 0 invariant forall k int :: {methods[k]} 0 <= k && k <= rangeindex && matches(c, prod, methods[k]) ==> exists j int :: 0 <= j && j < len(matches) && matches[j] == methods[k]
+//@   loop 0 decreases n - rangeindex
+//
 // The first part specifies the *generated runtime* (the Go text inside
 // parserTemplate, lexerTemplate and baseTemplate). The checker renders the
 // templates with a freshly built lox on every run and verifies the rendered
